@@ -675,3 +675,69 @@ RULES = {
     "REBUILD": Rule("B-rebuild", rule_rebuilders, 3, "loops that rebuild a program section keep every assignment on every path (or raise)", mut_rebuilders),
     "MEMO": Rule("B-memo", rule_memo_invalidation, 2, "condition memo stores are invalidated for the assigned variable at every assignment", mut_memo, soft=True),
 }
+
+
+# ------------------------------------------------------------------ lost updates: a parameter is re-bound where an in-place update was meant
+def rule_lost_update(repo: Repo) -> List[Ob]:
+    """`p = p | x` / `p = p + [x]` on a *parameter* that is never read again in the function only changes the
+    local name: the caller's container is not updated.  Flagged only for this update shape (the new value
+    mentions the old one) followed by no read on any path."""
+    obs = []
+    scope = ("program/", "recurrences/", "type_inference/", "utils/", "inputparser/", "invariants/", "cli/common.py", "sensitivity_analysis/", "unsolvable_analysis/")
+    n_updates = 0
+    for f in repo.functions:
+        if not f.relpath.startswith(scope):
+            continue
+        params = set(f.params())
+        if not params:
+            continue
+        cands = []
+        for st in walk_no_nested(f.node):
+            if isinstance(st, ast.Assign) and len(st.targets) == 1 and isinstance(st.targets[0], ast.Name) and st.targets[0].id in params \
+                    and isinstance(st.value, ast.BinOp) and any(isinstance(x, ast.Name) and x.id == st.targets[0].id for x in ast.walk(st.value)):
+                cands.append(st)
+            if isinstance(st, ast.AugAssign) and isinstance(st.target, ast.Name) and st.target.id in params:
+                n_updates += 1
+        if not cands:
+            continue
+        c = cfg_of(f.node)
+        for st in cands:
+            nm = st.targets[0].id
+            sn = c.node_of(st)
+            if sn is None:
+                continue
+            n_updates += 1
+            read_later = False
+            for y in c._reach(sn, c.succs):
+                if y is sn or y.ast is None:
+                    continue
+                if any(isinstance(x, ast.Name) and x.id == nm and isinstance(x.ctx, ast.Load) for x in ast.walk(y.ast)):
+                    read_later = True
+                    break
+            # inside a loop the statement reaches itself: its own right side reads the name again -> not lost locally
+            if not read_later and c.reachable(sn, sn) and any(b is not sn for b in c.succs(sn)) and any(c.reachable(b, sn) for b in c.succs(sn)):
+                read_later = True
+            obs.append(Ob("B-lost-update", f"{f.relpath}::{f.qualname}::{nm}", f.relpath, st.lineno, f.qualname, read_later,
+                          f"`{src(st)[:60]}` re-binds parameter `{nm}`; the new value is used later in the function" if read_later else
+                          f"`{src(st)[:70]}` re-binds the parameter `{nm}` and the new value is never read: the caller's container is not updated (an in-place `|=`/`.update`/`.add` was meant)"))
+    if not obs:
+        obs.append(Ob("B-lost-update", "scan", "", 0, "", True, f"{n_updates} in-place updates of parameters, no re-binding update shape", trivial=True))
+    return obs
+
+
+def mut_lost_update(repo: Repo) -> List[Mutant]:
+    def tr(tree):
+        fn = find_def(tree, "ConditionsNormalizer._try_abstract_failed_condition")
+        if fn is None:
+            return False
+        for n in ast.walk(fn):
+            if isinstance(n, ast.AugAssign) and isinstance(n.target, ast.Name) and n.target.id == "abstracted_vars":
+                new = ast.Assign(targets=[ast.Name(id="abstracted_vars", ctx=ast.Store())],
+                                 value=ast.BinOp(left=ast.Name(id="abstracted_vars", ctx=ast.Load()), op=ast.BitOr(), right=n.value))
+                return replace_node(fn, n, new)
+        return False
+    ov = mutate_module(repo, "program/transformer/conditions_normalizer.py", tr)
+    return [Mutant("in-place-update-becomes-rebinding", ov, "fire", "_try_abstract_failed_condition::abstracted_vars", control=True)] if ov else []
+
+
+RULES["LOSTUPDATE"] = Rule("B-lost-update", rule_lost_update, 1, "no update of a container parameter is written as a re-binding whose value is never read (lost update)", mut_lost_update)
